@@ -1,6 +1,7 @@
 """Unit `zone_merge` (C12): merging configuration -- record-set union, recursive merge of children and wildcard sets,
 SOA replacement, Zones::insert_merge, Hosts::merge."""
 from units.base import *
+from units.zone_build import BUILD_SPEC_RS
 
 TRUSTED = TRUSTED_COMMON + [
     "HashMap: vstd specs + get_mut prophecy spec + obeys_key_model for DomainName/Label/RecordType (prelude/hash.rs)",
@@ -65,7 +66,9 @@ SPECS = {
 }
 
 SPECS["ZoneRecords::merge"] = {"props": ["C12"], "rewrites": [R3], "depub": True,
-    "contract": """    ensures
+    "contract": """    requires tree_wf(*old(self)), tree_wf(other), old(self).nsdname.labels@ == other.nsdname.labels@,
+    ensures
+        tree_wf(*final(self)), // [C02,C12:merge_keeps_the_tree_invariant]
         final(self).nsdname == old(self).nsdname,
         zrs_merged(old(self).this@, other.this@, final(self).this@), // [C12:node_records_are_union]
         other.wildcards is Some ==> final(self).wildcards is Some, // [C12:wildcard_records_kept]
@@ -78,9 +81,12 @@ SPECS["ZoneRecords::merge"] = {"props": ["C12"], "rewrites": [R3], "depub": True
         forall|l: Label| #![trigger final(self).children@[l]] old(self).children@.contains_key(l) && !other.children@.contains_key(l) ==> final(self).children@[l] == old(self).children@[l], // [C12:child_only_here_unchanged]
         forall|l: Label| #![trigger final(self).children@[l]] !old(self).children@.contains_key(l) && other.children@.contains_key(l) ==> final(self).children@[l] == other.children@[l], // [C12:child_only_there_taken_whole]
     decreases other,""",
-    "entry": "broadcast use vstd::std_specs::hash::group_hash_axioms, axiom_rt_key_model, axiom_label_key_model, axiom_borrowed_key_updated;",
+    "entry": "broadcast use vstd::std_specs::hash::group_hash_axioms, axiom_rt_key_model, axiom_label_key_model, axiom_borrowed_key_updated; proof { lemma_tree_wf_children(*old(self)); lemma_tree_wf_children(other); }",
     "loops": {"0": {"kw": "for", "spec": """        invariant
             self.nsdname == old(self).nsdname, self.this == mid_this__@, self.wildcards == mid_wild__@,
+            recs_typed(self.this@), self.wildcards is Some ==> recs_typed(self.wildcards->Some_0@),
+            forall|l: Label| self.children@.contains_key(l) ==> tree_wf(#[trigger] self.children@[l]) && self.children@[l].nsdname.labels@ == seq![l] + self.nsdname.labels@,
+            forall|l: Label| other.children@.contains_key(l) ==> tree_wf(#[trigger] other.children@[l]) && other.children@[l].nsdname.labels@ == seq![l] + self.nsdname.labels@,
             it__.seq().len() == other.children@.dom().len(),
             forall|i: int| 0 <= i < it__.seq().len() ==> other.children@.contains_key(#[trigger] it__.seq()[i].0) && other.children@[it__.seq()[i].0] == it__.seq()[i].1,
             forall|k: Label| other.children@.contains_key(k) ==> exists|i: int| 0 <= i < it__.seq().len() && #[trigger] it__.seq()[i].0 == k,
@@ -91,13 +97,19 @@ SPECS["ZoneRecords::merge"] = {"props": ["C12"], "rewrites": [R3], "depub": True
             forall|j: int| 0 <= j < it__.index@ && !old(self).children@.contains_key(#[trigger] it__.seq()[j].0) ==> self.children@[it__.seq()[j].0] == it__.seq()[j].1,""",
         "entry": "broadcast use vstd::std_specs::hash::group_hash_axioms, axiom_label_key_model, axiom_borrowed_key_updated;"}},
     "anchors": [{"after": "for (k, other_zrs) in other.children", "at": "before",
-                 "proof": "let ghost mid_this__ = Ghost(self.this); let ghost mid_wild__ = Ghost(self.wildcards);"}],
+                 "proof": """let ghost mid_this__ = Ghost(self.this); let ghost mid_wild__ = Ghost(self.wildcards);
+proof {
+    lemma_merged_typed(old(self).this@, other.this@, self.this@);
+    if old(self).wildcards is Some && other.wildcards is Some { lemma_merged_typed(old(self).wildcards->Some_0@, other.wildcards->Some_0@, self.wildcards->Some_0@); }
+}"""},
+                {"after": "self.children.insert(k, other_zrs);\n            }\n        }", "proof": "proof { lemma_tree_wf_leaf(*self); }"}],
 }
 
 ZM_NODE = """        node_rest_merged(*old(self), other, *final(self)),"""
 SPECS["Zone::merge"] = {"props": ["C12"], "depub": True,
-    "contract": """    requires zone_soa_ok(*old(self)), zone_soa_ok(other),
+    "contract": """    requires zone_soa_ok(*old(self)), zone_soa_ok(other), zone_wf(*old(self)), zone_wf(other),
     ensures
+        r is Ok ==> zone_wf(*final(self)), // [C02,C12:merge_keeps_the_tree_invariant]
         r is Err <==> old(self).apex != other.apex, // [C12:merge_rejects_only_foreign_apex]
         r is Err ==> *final(self) == *old(self),
         r is Ok ==> final(self).apex == old(self).apex,
@@ -106,7 +118,10 @@ SPECS["Zone::merge"] = {"props": ["C12"], "depub": True,
         r is Ok ==> zrs_merged(old(self).records.this@.remove(RecordType::SOA), other.records.this@.remove(RecordType::SOA), final(self).records.this@.remove(RecordType::SOA)), // [C12:zone_records_are_union]
         r is Ok ==> node_rest_merged(old(self).records, other.records, final(self).records), // [C12:zone_wildcards_and_children_merged]""",
     "entry": "broadcast use vstd::std_specs::hash::group_hash_axioms, axiom_rt_key_model, axiom_dn_eq_structural, axiom_dn_obeys_eq;",
-    "anchors": [{"after": "self.records.merge(other.records);", "proof": """proof {
+    "anchors": [{"after": "self.records.merge(other.records);", "at": "before", "proof": """proof {
+    lemma_tree_wf_children(old(self).records);
+    lemma_tree_wf_leaf(self.records);
+}"""}, {"after": "self.records.merge(other.records);", "proof": """proof {
     if other.soa is None && old(self).soa is Some {
         let f = self.records.this@[RecordType::SOA]@; let o = old(self).records.this@[RecordType::SOA]@;
         assert(o.no_duplicates());
@@ -118,17 +133,36 @@ SPECS["Zone::merge"] = {"props": ["C12"], "depub": True,
 }"""}],
 }
 SPECS["Zones::insert"] = {"props": ["C12"], "depub": True,
-    "contract": """    requires old(self).wf(), zone_soa_ok(zone),
+    "contract": """    requires old(self).wf(), zone_soa_ok(zone), zone_wf(zone),
     ensures final(self).zones@ == old(self).zones@.insert(zone.apex, zone), final(self).wf(),""",
     "entry": "broadcast use vstd::std_specs::hash::group_hash_axioms, axiom_dn_key_model;"}
 SPECS["Zones::insert_merge"] = {"props": ["C12"], "depub": True,
-    "contract": """    requires old(self).wf(), zone_soa_ok(other_zone),
-    ensures final(self).wf(),
+    "contract": """    requires old(self).wf(), zone_soa_ok(other_zone), zone_wf(other_zone),
+    ensures final(self).wf(), // [C02,C12:every_configured_zone_keeps_the_tree_invariant]
         forall|k: DomainName| #[trigger] final(self).zones@.contains_key(k) <==> (old(self).zones@.contains_key(k) || k == other_zone.apex), // [C12:zone_set_is_union]
         forall|k: DomainName| #![trigger final(self).zones@[k]] old(self).zones@.contains_key(k) && k != other_zone.apex ==> final(self).zones@[k] == old(self).zones@[k], // [C12:other_zones_untouched]
         !old(self).zones@.contains_key(other_zone.apex) ==> final(self).zones@[other_zone.apex] == other_zone, // [C12:new_apex_inserted_whole]
         old(self).zones@.contains_key(other_zone.apex) ==> zone_merged(old(self).zones@[other_zone.apex], other_zone, final(self).zones@[other_zone.apex]), // [C12:same_apex_merged]""",
     "entry": "broadcast use vstd::std_specs::hash::group_hash_axioms, axiom_dn_key_model, axiom_borrowed_key_updated;"}
+SPECS["Zones::merge"] = {"props": ["C12"], "depub": True, "rewrites": [R3],
+    "contract": """    requires old(self).wf(), other.wf(),
+    ensures final(self).wf(), // [C02,C12:every_configured_zone_keeps_the_tree_invariant]
+        forall|k: DomainName| #[trigger] final(self).zones@.contains_key(k) <==> (old(self).zones@.contains_key(k) || other.zones@.contains_key(k)), // [C12:zone_set_is_union]
+        forall|k: DomainName| #![trigger final(self).zones@[k]] old(self).zones@.contains_key(k) && !other.zones@.contains_key(k) ==> final(self).zones@[k] == old(self).zones@[k], // [C12:other_zones_untouched]
+        forall|k: DomainName| #![trigger final(self).zones@[k]] !old(self).zones@.contains_key(k) && other.zones@.contains_key(k) ==> final(self).zones@[k] == other.zones@[k], // [C12:new_apex_inserted_whole]
+        forall|k: DomainName| #![trigger final(self).zones@[k]] old(self).zones@.contains_key(k) && other.zones@.contains_key(k) ==> zone_merged(old(self).zones@[k], other.zones@[k], final(self).zones@[k]), // [C12:same_apex_merged]""",
+    "entry": "broadcast use vstd::std_specs::hash::group_hash_axioms, axiom_dn_key_model, axiom_borrowed_key_updated;",
+    "loops": {"0": {"kw": "for", "spec": """        invariant self.wf(), other.wf(),
+            it__.seq().len() == other.zones@.dom().len(),
+            forall|i: int| 0 <= i < it__.seq().len() ==> other.zones@.contains_key(#[trigger] it__.seq()[i].0) && other.zones@[it__.seq()[i].0] == it__.seq()[i].1,
+            forall|k: DomainName| other.zones@.contains_key(k) ==> exists|i: int| 0 <= i < it__.seq().len() && #[trigger] it__.seq()[i].0 == k,
+            forall|i: int, j: int| 0 <= i < j < it__.seq().len() ==> it__.seq()[i].0 != it__.seq()[j].0,
+            forall|k: DomainName| #[trigger] self.zones@.contains_key(k) <==> (old(self).zones@.contains_key(k) || exists|j: int| 0 <= j < it__.index@ && #[trigger] it__.seq()[j].0 == k),
+            forall|k: DomainName| #![trigger self.zones@[k]] old(self).zones@.contains_key(k) && !(exists|j: int| 0 <= j < it__.index@ && #[trigger] it__.seq()[j].0 == k) ==> self.zones@[k] == old(self).zones@[k],
+            forall|j: int| 0 <= j < it__.index@ && !old(self).zones@.contains_key(#[trigger] it__.seq()[j].0) ==> self.zones@[it__.seq()[j].0] == it__.seq()[j].1,
+            forall|j: int| 0 <= j < it__.index@ && old(self).zones@.contains_key(#[trigger] it__.seq()[j].0) ==> zone_merged(old(self).zones@[it__.seq()[j].0], it__.seq()[j].1, self.zones@[it__.seq()[j].0]),""",
+        "entry": "broadcast use vstd::std_specs::hash::group_hash_axioms, axiom_dn_key_model, axiom_borrowed_key_updated;"}},
+}
 SPECS["Hosts::merge"] = {"props": ["C12"], "rewrites": [R3],
     "contract": """    ensures
         final(self).v4@ == old(self).v4@.union_prefer_right(other.v4@), // [C12:hosts_later_file_wins_v4]
@@ -159,6 +193,20 @@ SPECS["Hosts::merge"] = {"props": ["C12"], "rewrites": [R3],
 }
 
 SPEC_RS = """
+proof fn lemma_merged_typed(a: Map<RecordType, Vec<ZoneRecord>>, b: Map<RecordType, Vec<ZoneRecord>>, r: Map<RecordType, Vec<ZoneRecord>>)
+    requires zrs_merged(a, b, r), recs_typed(a), recs_typed(b)
+    ensures recs_typed(r)
+{
+    assert forall|t: RecordType, j: int| #![trigger r[t]@[j]] r.contains_key(t) && 0 <= j < r[t]@.len() implies spec_rtype_of(r[t]@[j].rtype_with_data) == t by {
+        if a.contains_key(t) && a[t]@.contains(r[t]@[j]) {
+            let i = choose|i: int| 0 <= i < a[t]@.len() && a[t]@[i] == r[t]@[j];
+            assert(spec_rtype_of(a[t]@[i].rtype_with_data) == t);
+        } else {
+            let i = choose|i: int| 0 <= i < b[t]@.len() && b[t]@[i] == r[t]@[j];
+            assert(spec_rtype_of(b[t]@[i].rtype_with_data) == t);
+        }
+    }
+}
 pub open spec fn soa_zr(s: SOA) -> ZoneRecord {
     ZoneRecord { rtype_with_data: RecordTypeWithData::SOA { mname: s.mname, rname: s.rname, serial: s.serial, refresh: s.refresh, retry: s.retry, expire: s.expire, minimum: s.minimum }, ttl: s.minimum }
 }
@@ -189,9 +237,10 @@ spec fn zone_merged(a: Zone, b: Zone, r: Zone) -> bool {
     &&& zrs_merged(a.records.this@.remove(RecordType::SOA), b.records.this@.remove(RecordType::SOA), r.records.this@.remove(RecordType::SOA))
     &&& node_rest_merged(a.records, b.records, r.records)
 }
+spec fn zone_wf(z: Zone) -> bool { tree_wf(z.records) && z.records.nsdname == z.apex }
 impl Zones {
     spec fn wf(&self) -> bool {
-        forall|k: DomainName| #[trigger] self.zones@.contains_key(k) ==> self.zones@[k].apex == k && zone_soa_ok(self.zones@[k])
+        forall|k: DomainName| #[trigger] self.zones@.contains_key(k) ==> self.zones@[k].apex == k && zone_soa_ok(self.zones@[k]) && zone_wf(self.zones@[k])
     }
 }
 pub broadcast axiom fn axiom_dn_eq_structural(a: DomainName, b: DomainName)
@@ -220,12 +269,14 @@ def build(G):
     G.file(os.path.join(PRELUDE, "wire_spec.rs"))
     zone_types(G)
     G.file(os.path.join(PRELUDE, "hash.rs"))
+    G.file(os.path.join(VERIF, "units", "zone_lookup.spec.rs"))
+    G.raw(BUILD_SPEC_RS, ("spec", "zone_build spec"))
     G.raw(SPEC_RS, ("spec", "zone_merge spec"))
     Z = G.src(ZTYPES)
     G.top_fn(Z, "merge_zrs_helper", SPECS)
     G.impl(Z, "ZoneRecords", ["merge"], "ZoneRecords::", SPECS)
     G.impl(Z, "Zone", ["merge"], "Zone::", SPECS)
-    G.impl(Z, "Zones", ["insert", "insert_merge"], "Zones::", SPECS)
+    G.impl(Z, "Zones", ["insert", "insert_merge", "merge"], "Zones::", SPECS)
     H = G.src(HTYPES)
     G.item(H, "struct", "Hosts", drop_derive=("Clone",))
     G.impl(H, "Hosts", ["merge"], "Hosts::", SPECS)
